@@ -127,10 +127,18 @@ def locks_layer(x):
             elif ev == "AttemptEnd":
                 out.append({"e": "AttemptEnd", "task": tid(e.get("cert"))})
         elif src == "ca":
-            if ev == "CaReq" and e.get("kind") == "newAccount" and (e.get("detail") or {}).get("created"):
+            if ev == "CaReq" and e.get("kind") == "newAccount" and (e.get("detail") or {}).get("thumb"):
                 d = e["detail"]
-                acct_key[(e["ep"], d["acct"])] = d["thumb"]
-                out.append({"e": "Created", "key": d["thumb"], "ep": e["ep"]})
+                if d.get("created"):
+                    acct_key[(e["ep"], d["acct"])] = d["thumb"]
+                    out.append({"e": "Created", "key": d["thumb"], "ep": e["ep"]})
+                if d.get("accepted") or d.get("created"):
+                    # every newAccount REQUEST the CA accepted, whether it created the account or found it
+                    out.append({"e": "RegReq", "key": d["thumb"], "ep": e["ep"]})
+            elif ev == "CaReq" and e.get("resp_type") and "accountDoesNotExist" in str(e.get("resp_type")):
+                k = acct_key.get((e["ep"], (e.get("post") or {}).get("kid_acct")))
+                if k:
+                    out.append({"e": "Unknown", "key": k, "ep": e["ep"]})
             elif ev == "CaForget":
                 for a in e.get("accounts", []):
                     k = acct_key.get((e["ep"], a))
